@@ -293,8 +293,12 @@ func allScripts(maxLen int) [][]outcomeT {
 	return out
 }
 
+// transportSettings (drawn per case in the random layer): documented settings of the transport the backends share.
+// None of them changes what a flush must do.
+var transportSettings map[string]interface{}
+
 func newKit(t vt.TB, variant string, elapsed string) *bk.Kit {
-	k, err := bk.New(variantByName(variant), bk.Options{Batch: 1, MaxElapsed: elapsed, MaxRequests: 4, OtlpMaxRetries: 3})
+	k, err := bk.New(variantByName(variant), bk.Options{Batch: 1, MaxElapsed: elapsed, MaxRequests: 4, OtlpMaxRetries: 3, Transport: transportSettings})
 	if err != nil {
 		t.Fatalf("backend %s: %v", variant, err)
 	}
@@ -381,7 +385,9 @@ func TestHTTPFaultsRandom(t *testing.T) {
 		if strings.HasPrefix(variant, "otlp") && elapsed == "-1ns" {
 			elapsed = "0s"
 		}
+		transportSettings = rapid.SampledFrom([]map[string]interface{}{nil, nil, {"max-idle-connections": 0}, {"max-idle-connections": 1}, {"max-idle-connections": 50, "client-timeout": "30s"}}).Draw(t, "transport-settings")
 		kit := newKit(t, variant, elapsed)
+		transportSettings = nil
 		defer kit.Close()
 		flushes := rapid.IntRange(2, 3).Draw(t, "flushes")
 		var descs []string
